@@ -656,3 +656,18 @@ PROPS["C08"]["level_text"] += (
     "sound_capacity / sub_track_capacity (0 and 1 included): creation succeeds iff fewer than capacity are alive or awaiting "
     "removal in THAT storage, num_sounds() / num_sub_tracks() / sound_capacity() / sub_track_capacity() report the right "
     "numbers (oracles limit_iff_full, count_exact, count_le_capacity, capacity_reported)")
+
+# --- round-3 review of which suites bear on which property (seeded changes filed under a property whose own suites did
+# not exercise the changed code, while a sibling property's suite did) ---
+# C06 "every tween of every parameter": the effects' parameters (compressor, EQ, filter, delay, reverb … all hold
+# `Parameter`s updated per block) are exercised by the effect suites; sound parameters by `static` (added before).
+PROPS["C06"]["suites"] += [{"name": "fxa", "quick": 800, "thorough": 15000}]
+# C14 "documented transfer behaviour" must survive a device rate change (delay line lengths, nested feedback effects):
+# the rate-change suite of the effects.
+PROPS["C14"]["suites"] += [{"name": "fxrate", "quick": 600, "thorough": 6000}]
+# C16 "sounds keep their pitch and duration, delayed starts keep their real time at every device rate": the static
+# sound suite draws device rates / dt freely and compares positions and delayed starts with the twin.
+PROPS["C16"]["suites"] += [{"name": "static", "quick": 800, "thorough": 15000}]
+# C07 "every command kind of every handle type": effect handles (fxa/fxb drive every effect's setters through the
+# real command channels).
+PROPS["C07"]["suites"] += [{"name": "fxa", "quick": 600, "thorough": 10000}, {"name": "fxb", "quick": 600, "thorough": 10000}]
